@@ -179,23 +179,39 @@ Definition xevent_allowed (a : bool * bool * bool) (e : xevent) : bool :=
   | XEv _ => tx
   end.
 
-(** Coverage of the generated table: every exported method found in the source is a constructor of [call]
-    with the same kind of access, and no extraction problem was reported. *)
+(** Coverage of an extracted table of exported methods (the run's own extraction from sqlgen/*.go):
+    (a) every extracted method that can reach the database (its kind of access is not "none") is a constructor of
+        [call] with the same kind of access -- and a method the model knows has the kind the model gives it;
+    (b) every constructor of [call] names an extracted method;
+    (c) no extraction problem.
+    An exported method that reaches no database/sql call (an accessor, say) cannot send a statement and needs no
+    case in the model: it is listed ([methods_without_access]), not an error. *)
 Definition all_call_names : list string := map fst method_access.
 
 Definition access_eqb (a b : bool * bool * bool) : bool :=
   let '(a1, a2, a3) := a in let '(b1, b2, b3) := b in Bool.eqb a1 b1 && Bool.eqb a2 b2 && Bool.eqb a3 b3.
 
+Definition no_access (a : bool * bool * bool) : bool := access_eqb a (false, false, false).
+
 Definition methods_covered (gen : list (string * (bool * bool * bool))) : bool :=
   forallb (fun ma => match lookup (fst ma) method_access with
                      | Some a => access_eqb a (snd ma)
-                     | None => false
-                     end) gen.
+                     | None => no_access (snd ma)
+                     end) gen
+  && forallb (fun m => existsb (String.eqb m) (map fst gen)) all_call_names.
 
-(** The methods of the generated table the model does not know, and the ones whose access differs
-    (printed by the evaluator when the coverage theorem fails). *)
+(** The extracted methods that break the coverage: they reach the database without a case in the model, or with
+    another kind of access than the model's; and the model cases the source no longer has. *)
 Definition methods_outside (gen : list (string * (bool * bool * bool))) : list string :=
+  (map fst (List.filter (fun ma => match lookup (fst ma) method_access with
+                                   | Some a => negb (access_eqb a (snd ma))
+                                   | None => negb (no_access (snd ma))
+                                   end) gen)
+   ++ List.filter (fun m => negb (existsb (String.eqb m) (map fst gen))) all_call_names)%list.
+
+(** Exported methods without database access and without a model case (information only). *)
+Definition methods_without_access (gen : list (string * (bool * bool * bool))) : list string :=
   map fst (List.filter (fun ma => match lookup (fst ma) method_access with
-                                  | Some a => negb (access_eqb a (snd ma))
-                                  | None => true
+                                  | Some _ => false
+                                  | None => no_access (snd ma)
                                   end) gen).
